@@ -262,4 +262,195 @@ theorem C16_displaced_pinned_clear :
   have : ((({} : DT).insert 0 1 5).1.clearPinned).displaced[0]? = none := by decide
   rw [this] at hts; cases hts
 
+/-! ### timestamp-range subsets -/
+
+/-- rows are in non-decreasing timestamp order -/
+def TsSorted (d : List (Nat × Nat)) : Prop := d.Pairwise (fun a b => a.2 ≤ b.2)
+
+theorem TsSorted.snoc {d : List (Nat × Nat)} (h : TsSorted d) (r : Nat × Nat) (hok : tsOk d r.2 = true) :
+    TsSorted (d ++ [r]) := by
+  unfold TsSorted at *
+  rw [List.pairwise_append]
+  refine ⟨h, List.pairwise_singleton _ _, ?_⟩
+  intro a ha b hb
+  simp only [List.mem_singleton] at hb
+  subst hb
+  unfold tsOk at hok
+  cases hl : d.getLast? with
+  | none =>
+    rw [List.getLast?_eq_none_iff] at hl
+    subst hl; cases ha
+  | some l =>
+    rw [hl] at hok
+    simp only [decide_eq_true_eq] at hok
+    -- every row is ≤ the last one
+    have hlast : a.2 ≤ l.2 := by
+      obtain ⟨pre, rfl⟩ : ∃ pre, d = pre ++ [l] := by
+        have := List.getLast?_eq_some_iff.mp hl
+        obtain ⟨pre, hpre⟩ := this
+        exact ⟨pre, hpre⟩
+      rw [List.pairwise_append] at h
+      rcases List.mem_append.mp ha with h1 | h1
+      · exact h.2.2 a h1 l (by simp)
+      · simp only [List.mem_singleton] at h1; subst h1; exact Nat.le_refl _
+    exact Nat.le_trans hlast hok
+
+theorem sorted_dropWhile_lt (val : Nat) : ∀ (d : List (Nat × Nat)), TsSorted d →
+    ∀ x ∈ d.dropWhile (fun r => r.2 < val), val ≤ x.2 := by
+  intro d
+  induction d with
+  | nil => intro _ x hx; cases hx
+  | cons y ys ih =>
+    intro hs x hx
+    have hs' := List.pairwise_cons.mp hs
+    rw [List.dropWhile_cons] at hx
+    split at hx
+    · exact ih hs'.2 x hx
+    · rename_i hy
+      simp only [decide_eq_true_eq, Nat.not_lt] at hy
+      rcases List.mem_cons.mp hx with h1 | h1
+      · subst h1; exact hy
+      · exact Nat.le_trans hy (hs'.1 x h1)
+
+theorem sorted_dropWhile_eq (val : Nat) : ∀ (d : List (Nat × Nat)), TsSorted d → (∀ x ∈ d, val ≤ x.2) →
+    ∀ x ∈ d.dropWhile (fun r => r.2 == val), val < x.2 := by
+  intro d
+  induction d with
+  | nil => intro _ _ x hx; cases hx
+  | cons y ys ih =>
+    intro hs hge x hx
+    have hs' := List.pairwise_cons.mp hs
+    rw [List.dropWhile_cons] at hx
+    split at hx
+    · exact ih hs'.2 (fun z hz => hge z (List.mem_cons_of_mem _ hz)) x hx
+    · rename_i hy
+      simp only [beq_iff_eq] at hy
+      have hy' : val < y.2 := Nat.lt_of_le_of_ne (hge y List.mem_cons_self) (fun h => hy h.symm)
+      rcases List.mem_cons.mp hx with h1 | h1
+      · subst h1; exact hy'
+      · exact Nat.lt_of_lt_of_le hy' (hs'.1 x h1)
+
+theorem TsSorted.dropWhile {d : List (Nat × Nat)} (h : TsSorted d) (p : Nat × Nat → Bool) : TsSorted (d.dropWhile p) :=
+  List.Pairwise.sublist (List.dropWhile_sublist p) h
+
+theorem filter_all {p : Nat × Nat → Bool} : ∀ (l : List (Nat × Nat)), (∀ x ∈ l, p x = true) → l.filter p = l
+  | [], _ => rfl
+  | x :: xs, h => by
+    rw [List.filter_cons, if_pos (h x List.mem_cons_self), filter_all xs (fun y hy => h y (List.mem_cons_of_mem _ hy))]
+
+theorem filter_none {p : Nat × Nat → Bool} : ∀ (l : List (Nat × Nat)), (∀ x ∈ l, p x = false) → l.filter p = []
+  | [], _ => rfl
+  | x :: xs, h => by
+    rw [List.filter_cons, h x List.mem_cons_self]
+    simp only [Bool.false_eq_true, if_false]
+    exact filter_none xs (fun y hy => h y (List.mem_cons_of_mem _ hy))
+
+theorem slice_pre (A R : List (Nat × Nat)) : slice (A ++ R) (0, A.length) = A := by simp [slice]
+theorem slice_post (A R : List (Nat × Nat)) : slice (A ++ R) (A.length, (A ++ R).length) = R := by simp [slice]
+theorem slice_mid (A B C : List (Nat × Nat)) : slice (A ++ (B ++ C)) (A.length, A.length + B.length) = B := by
+  simp [slice]
+theorem slice_pre2 (A B C : List (Nat × Nat)) : slice (A ++ (B ++ C)) (0, A.length + B.length) = A ++ B := by
+  simp [slice, ← List.append_assoc]
+theorem slice_post2 (A B C : List (Nat × Nat)) : slice (A ++ (B ++ C)) (A.length + B.length, (A ++ (B ++ C)).length) = C := by
+  have : A ++ (B ++ C) = (A ++ B) ++ C := by simp
+  rw [this, ← List.length_append]
+  exact slice_post (A ++ B) C
+
+theorem mem_takeWhile_sat {p : Nat × Nat → Bool} : ∀ (l : List (Nat × Nat)) (x : Nat × Nat), x ∈ l.takeWhile p → p x = true
+  | [], _, h => by cases h
+  | y :: ys, x, h => by
+    rw [List.takeWhile_cons] at h
+    split at h
+    · rename_i hy
+      rcases List.mem_cons.mp h with h1 | h1
+      · subst h1; exact hy
+      · exact mem_takeWhile_sat ys x h1
+    · cases h
+
+/-- the three segments of a timestamp-sorted table around a value -/
+theorem ts_segments (d : List (Nat × Nat)) (hs : TsSorted d) (val : Nat) :
+    ∃ A B C : List (Nat × Nat), d = A ++ (B ++ C) ∧ (∀ x ∈ A, x.2 < val) ∧ (∀ x ∈ B, x.2 = val) ∧ (∀ x ∈ C, val < x.2) ∧
+      tsBounds d val = if A.length < A.length + B.length then .ok (A.length, A.length + B.length) else .error A.length := by
+  refine ⟨d.takeWhile (fun r => r.2 < val), (d.dropWhile (fun r => r.2 < val)).takeWhile (fun r => r.2 == val),
+    (d.dropWhile (fun r => r.2 < val)).dropWhile (fun r => r.2 == val), ?_, ?_, ?_, ?_, rfl⟩
+  · rw [List.takeWhile_append_dropWhile, List.takeWhile_append_dropWhile]
+  · intro x hx; simpa using mem_takeWhile_sat _ x hx
+  · intro x hx; simpa using mem_takeWhile_sat _ x hx
+  · exact sorted_dropWhile_eq val _ (hs.dropWhile _) (sorted_dropWhile_lt val d hs)
+
+/-- the range `fast_subset` returns, in terms of the segment lengths -/
+def tsForm (a b n : Nat) : TsC → Nat × Nat
+  | .lt => (0, a) | .le => (0, a + b) | .gt => (a + b, n) | .ge => (a, n) | .eq => (a, a + b)
+
+/-- **Timestamp-range subsets**: on a table whose rows carry non-decreasing timestamps, the dense
+range that `fast_subset` returns for `ts < v`, `ts ≤ v`, `ts > v`, `ts ≥ v`, `ts = v` holds exactly
+the rows that satisfy the constraint, in table order. -/
+theorem C16_displaced_ts_range (d : List (Nat × Nat)) (hs : TsSorted d) (k : TsC) (val : Nat) (r : Nat × Nat)
+    (h : tsRange d k val = some r) : slice d r = d.filter (fun row => k.sat val row.2) := by
+  obtain ⟨A, B, C, hd, hA, hB, hC, hb⟩ := ts_segments d hs val
+  have hr : r = tsForm A.length B.length d.length k := by
+    unfold tsRange at h
+    rw [hb] at h
+    by_cases hlt : A.length < A.length + B.length
+    · rw [if_pos hlt] at h
+      cases k <;> simp only [Option.some.injEq] at h <;> exact h.symm
+    · rw [if_neg hlt] at h
+      have hB0 : B.length = 0 := by omega
+      cases k <;> simp only [Option.some.injEq, reduceCtorEq] at h <;> simp [tsForm, hB0, ← h]
+  have hf : ∀ p : Nat × Nat → Bool, d.filter p = A.filter p ++ (B.filter p ++ C.filter p) := by
+    intro p; rw [hd]; simp [List.filter_append]
+  rw [hr, hf]
+  cases k with
+  | lt =>
+    simp only [TsC.sat, tsForm]
+    rw [filter_all A (fun x hx => by simpa using hA x hx), filter_none B (fun x hx => by simp [hB x hx]),
+      filter_none C (fun x hx => by have := hC x hx; simp; omega)]
+    rw [hd]; simpa using slice_pre A (B ++ C)
+  | le =>
+    simp only [TsC.sat, tsForm]
+    rw [filter_all A (fun x hx => by have := hA x hx; simp; omega), filter_all B (fun x hx => by simp [hB x hx]),
+      filter_none C (fun x hx => by have := hC x hx; simp; omega)]
+    rw [hd]; simpa using slice_pre2 A B C
+  | gt =>
+    simp only [TsC.sat, tsForm]
+    rw [filter_none A (fun x hx => by have := hA x hx; simp; omega), filter_none B (fun x hx => by simp [hB x hx]),
+      filter_all C (fun x hx => by simpa using hC x hx)]
+    have := slice_post2 A B C
+    rw [← hd] at this
+    simpa using this
+  | ge =>
+    simp only [TsC.sat, tsForm]
+    rw [filter_none A (fun x hx => by have := hA x hx; simp; omega), filter_all B (fun x hx => by simp [hB x hx]),
+      filter_all C (fun x hx => by have := hC x hx; simp; omega)]
+    have := slice_post A (B ++ C)
+    rw [← hd] at this
+    simpa using this
+  | eq =>
+    simp only [TsC.sat, tsForm]
+    rw [filter_none A (fun x hx => by have := hA x hx; simp; omega), filter_all B (fun x hx => by simp [hB x hx]),
+      filter_none C (fun x hx => by have := hC x hx; simp; omega)]
+    rw [hd]; simpa using slice_mid A B C
+
+/-- an `=` constraint for which there is no fast subset selects nothing -/
+theorem C16_displaced_ts_eq_none (d : List (Nat × Nat)) (hs : TsSorted d) (val : Nat)
+    (h : tsRange d .eq val = none) : d.filter (fun row => row.2 == val) = [] := by
+  obtain ⟨A, B, C, hd, hA, hB, hC, hb⟩ := ts_segments d hs val
+  unfold tsRange at h
+  rw [hb] at h
+  by_cases hlt : A.length < A.length + B.length
+  · rw [if_pos hlt] at h; cases h
+  · have hB0 : B = [] := List.length_eq_zero_iff.mp (by omega)
+    rw [hd, hB0]
+    simp only [List.nil_append, List.filter_append]
+    rw [filter_none A (fun x hx => by have := hA x hx; simp; omega), filter_none C (fun x hx => by have := hC x hx; simp; omega)]
+    rfl
+
+/-- the timestamp order is kept by every insertion the table accepts -/
+theorem C16_displaced_ts_sorted (d : List (Nat × Nat)) (hs : TsSorted d) (c ts : Nat) (hok : tsOk d ts = true) :
+    TsSorted (d ++ [(c, ts)]) := hs.snoc (c, ts) hok
+
+example : tsRange [(5, 1), (3, 1), (9, 2), (4, 4)] .ge 2 = some (2, 4) := by decide
+example : tsRange [(5, 1), (3, 1), (9, 2), (4, 4)] .eq 3 = none := by decide
+example : slice [(5, 1), (3, 1), (9, 2), (4, 4)] (0, 2) = [(5, 1), (3, 1)] := by decide
+
 end EgglogVerif.Displaced
